@@ -1,7 +1,6 @@
 // ---------------------------------------------------------------------------------
 // shims/pkesk_identity_env.rs - what the PKESK identity unit (U14) assumes about code that is not its
-// subject.  Include AFTER shims/io.rs, shims/bytes.rs inside verus!{}; the unit file must start with
-// `#![feature(allocator_api)]`.  The unit extracts the REAL Fingerprint, KeyId, PublicKeyEncryptedSessionKey,
+// subject.  Include AFTER shims/io.rs, shims/bytes.rs inside verus!{}.  The unit extracts the REAL Fingerprint, KeyId, PublicKeyEncryptedSessionKey,
 // EncryptionSeipdV1/V2 and Builder AFTER part 1 and includes part 2 (shims/pkesk_identity_callees.rs) after them.
 // ---------------------------------------------------------------------------------
 
